@@ -79,6 +79,7 @@ PLANS = {
         "quick": [ex("err3", "err", 3, 3, etys=["rich"], modes=["E"]), ex("err2", "err", 2, 3, etys=ALL_ETYS),
                   ex("lblT", "lblT", 1, 4, alphabet=["a", "b", "c"], etys=["rich", "simple"], modes=["E"]), ex("lbl2", "lbl", 2, 3, etys=ALL_ETYS, modes=["E"]),
                   ex("nstT", "nstT", 1, 4, alphabet=["a", "b", "(", ")"], kinds=["tree", "treem"], etys=["rich", "cheap"], modes=["E"]),
+                  ex("spnrE", "spnr", 3, 3, kinds=["slice", "mapped"], modes=["E"]),
                   rec("errR", "err", 1500, 8, 8, etys=ALL_ETYS), rec("lblR", "lbl", 1000, 8, 8, etys=ALL_ETYS),
                   {"kind": "altrule", "name": "altrule"}],
         "thorough": [{"kind": "altrule", "name": "altrule"}, ex("err3", "err", 3, 4, etys=["rich", "simple"]), ex("err2", "err", 2, 4, etys=ALL_ETYS),
